@@ -3,6 +3,7 @@ package p2j
 import (
 	"context"
 	"fmt"
+	"math"
 	"strconv"
 
 	"github.com/cloudwego/dynamicgo/http"
@@ -192,11 +193,17 @@ func (self *BinaryConv) unmarshalSingular(ctx context.Context, resp http.Respons
 		if e != nil {
 			return wrapError(meta.ErrRead, "unmarshal Floatkind error", e)
 		}
+		if f := float64(v); math.IsNaN(f) || math.IsInf(f, 0) {
+			return wrapError(meta.ErrConvert, "a non-finite float (NaN, Inf) cannot be represented in JSON", nil)
+		}
 		*out = json.EncodeFloat64(*out, float64(v))
 	case proto.DOUBLE:
 		v, e := p.ReadDouble()
 		if e != nil {
 			return wrapError(meta.ErrRead, "unmarshal Doublekind error", e)
+		}
+		if math.IsNaN(v) || math.IsInf(v, 0) {
+			return wrapError(meta.ErrConvert, "a non-finite double (NaN, Inf) cannot be represented in JSON", nil)
 		}
 		*out = json.EncodeFloat64(*out, float64(v))
 	case proto.STRING:
